@@ -6,6 +6,7 @@ import (
 	"fmt"
 	"sort"
 	"strings"
+	"sync/atomic"
 
 	shipapi "github.com/enbility/ship-go/api"
 	"github.com/enbility/spine-go/model"
@@ -72,6 +73,10 @@ type Conn struct {
 	AfterDeliver  func(d *Delivery)
 	Paused        bool
 	lifecycle     bool
+	// handover is a release/acquire pair the race detector sees: ship-go starts the read pump
+	// of a connection after SetupRemoteDevice has returned the reader, so what the connecting
+	// goroutine did before happens-before everything the reader task does for that connection
+	handover atomic.Int32
 }
 
 type connWriter struct {
@@ -127,6 +132,7 @@ func (c *Conn) startReader() {
 			// the payload is now in flight inside the read pump of this connection generation:
 			// it is handed to the reader that belongs to it even if the connection is removed
 			// (and re-established) before the stack gets to handle it
+			c.handover.Load()
 			it.rd, it.gen = c.Reader, c.Gen
 			if w.FaultsOn && !it.dup {
 				if w.faultHit("net.drop") {
@@ -286,6 +292,7 @@ func (n *Node) Connect(peerName string, onWrite func(s *Sent), bind func(c *Conn
 	// ship-go cannot deliver anything before SetupRemoteDevice has returned the reader
 	c.Paused = true
 	c.Reader = n.Dev.SetupRemoteDevice(ski, &connWriter{c: c, gen: c.Gen})
+	c.handover.Store(int32(c.Gen + 1))
 	c.Paused = false
 	return c
 }
